@@ -178,6 +178,11 @@ def run_harness_family(fam, tier, seed, tag):
     with open(path, "w") as f:
         p = subprocess.run([KH, fam, tier, str(seed)], stdout=f, stderr=subprocess.PIPE, text=True, timeout=7200)
     if p.returncode != 0:
+        # localise: rerun flushing every line, so that the transcript ends at the last request that completed
+        env2 = dict(os.environ); env2["KH_FLUSH"] = "1"
+        with open(path, "w") as f:
+            p = subprocess.run([KH, fam, tier, str(seed)], stdout=f, stderr=subprocess.PIPE, text=True, timeout=7200, env=env2)
+    if p.returncode != 0:
         # the harness calls the real code in-process: a crash (abort, segfault, a panic that escaped
         # catch_unwind) is behaviour of the implementation under test, not of the machinery
         last = ""
